@@ -40,7 +40,7 @@ func (fr *Frame) execInstr(ins ssa.Instruction) {
 		}
 	case *ssa.ChangeInterface:
 		x := fr.get(ins.X)
-		fr.set(ins, &Val{T: ins.Type(), L: x.L, Tags: x.Tags})
+		fr.set(ins, &Val{T: ins.Type(), L: x.L, Tags: x.Tags, Alts: x.Alts})
 	case *ssa.ChangeType:
 		x := fr.get(ins.X)
 		if isPtrT(ins.Type()) {
@@ -567,7 +567,7 @@ func (fr *Frame) makeInterface(ins ssa.Value, xv ssa.Value, it types.Type) {
 		payload = fr.alloc(xt, "1")
 		fr.storeVal(payload, xt, x)
 	}
-	fr.set(ins, &Val{T: it, L: []string{intLit(int64(tag)), payload}, Tags: []int{tag}})
+	fr.set(ins, &Val{T: it, L: []string{intLit(int64(tag)), payload}, Tags: []int{tag}, Alts: map[int]string{tag: payload}})
 }
 
 func (fr *Frame) typeAssert(ins *ssa.TypeAssert) {
